@@ -26,6 +26,10 @@ class Net:
         self.has_delta = False
         self.has_phi = False
         self.family = "?"
+        # elements that are attached and later replaced (not part of the final graph)
+        self.x_links = {}
+        self.x_origins = {}
+        self.x_dests = {}
 
     # ---- the graph the ops denote (simulation of networkx insertion order) ----
     def graph(self):
@@ -134,7 +138,10 @@ class Net:
                 "links": {str(k): v for k, v in self.links.items()},
                 "origins": {str(k): v for k, v in self.origins.items()},
                 "dests": {str(k): v for k, v in self.dests.items()},
-                "has_delta": self.has_delta, "has_phi": self.has_phi, "family": self.family}
+                "has_delta": self.has_delta, "has_phi": self.has_phi, "family": self.family,
+                "x_links": {str(k): v for k, v in self.x_links.items()},
+                "x_origins": {str(k): v for k, v in self.x_origins.items()},
+                "x_dests": {str(k): v for k, v in self.x_dests.items()}}
 
     @staticmethod
     def from_json(j):
@@ -146,7 +153,69 @@ class Net:
         n.has_delta = j["has_delta"]
         n.has_phi = j["has_phi"]
         n.family = j.get("family", "?")
+        n.x_links = {int(k): v for k, v in j.get("x_links", {}).items()}
+        n.x_origins = {int(k): v for k, v in j.get("x_origins", {}).items()}
+        n.x_dests = {int(k): v for k, v in j.get("x_dests", {}).items()}
         return n
+
+
+def with_replacements(net, rng):
+    """the same final network, built through a history in which some links / origins /
+    destinations are first attached as other objects and then replaced"""
+    import copy
+    n2 = copy.deepcopy(net)
+    ops = []
+    nl = (max(list(net.links) + [0]) + 1)
+    no = (max(list(net.origins) + [0]) + 1)
+    nd = (max(list(net.dests) + [0]) + 1)
+    for op in net.ops:
+        if rng.random() < 0.5:
+            if op[0] == "link":
+                n2.x_links[nl] = dict(N=rng.choice([1, 2, 3]), lanes=rng.choice([1, 2, 3]), vsl=None)
+                ops.append(("link", op[1], nl, op[3]))
+                nl += 1
+            elif op[0] == "origin":
+                n2.x_origins[no] = rng.choice(OKINDS)
+                ops.append(("origin", no, op[2]))
+                no += 1
+            elif op[0] == "dest":
+                n2.x_dests[nd] = rng.choice(DKINDS)
+                ops.append(("dest", nd, op[2]))
+                nd += 1
+        ops.append(op)
+    n2.ops = ops
+    return n2
+
+
+def with_late_replacements(net, rng):
+    """build the network with some links / origins / destinations being other objects, USE it
+    (validate, step, read look-ups), then replace those by the final elements"""
+    import copy
+    n2 = copy.deepcopy(net)
+    nl = (max(list(net.links) + list(net.x_links) + [0]) + 1)
+    no = (max(list(net.origins) + list(net.x_origins) + [0]) + 1)
+    nd = (max(list(net.dests) + list(net.x_dests) + [0]) + 1)
+    first, later = [], []
+    for op in net.ops:
+        if op[0] == "link" and rng.random() < 0.6:
+            n2.x_links[nl] = dict(net.links[op[2]], vsl=None)
+            first.append(("link", op[1], nl, op[3]))
+            later.append(op)
+            nl += 1
+        elif op[0] == "origin" and rng.random() < 0.6:
+            n2.x_origins[no] = net.origins[op[1]] if rng.random() < 0.7 else rng.choice(OKINDS)
+            first.append(("origin", no, op[2]))
+            later.append(op)
+            no += 1
+        elif op[0] == "dest" and rng.random() < 0.6:
+            n2.x_dests[nd] = rng.choice(DKINDS)
+            first.append(("dest", nd, op[2]))
+            later.append(op)
+            nd += 1
+        else:
+            first.append(op)
+    n2.ops = first + [("use",)] + later
+    return n2
 
 
 def coq_options(opts):
@@ -277,6 +346,19 @@ def families(rng):
     add("vsl-empty", [(0, 1)], {0: "ideal"}, {1: "free"}, linkmk=lambda r: dict(N=2, lanes=2, vsl=[]))
     add("single-seg-chain", [(0, 1), (1, 2), (2, 3)], {0: "simp_unl"}, {3: "free"},
         linkmk=lambda r: dict(N=1, lanes=2, vsl=None))
+    add("seg1-merge-drop", [(0, 1), (1, 2), (2, 3)], {0: "main", 1: "ramp_out"}, {3: "free"},
+        delta=True, phi=True,
+        linkmk=lambda r, c=itertools.count(): [dict(N=2, lanes=3, vsl=None), dict(N=1, lanes=3, vsl=None),
+                                               dict(N=2, lanes=2, vsl=None)][next(c) % 3])
+    add("seg1-merge-drop-vsl", [(0, 1), (1, 2), (2, 3)], {0: "ideal", 1: "simp_lim"}, {3: "cong"},
+        delta=True, phi=True,
+        linkmk=lambda r, c=itertools.count(): [dict(N=1, lanes=2, vsl=None), dict(N=1, lanes=2, vsl=[0]),
+                                               dict(N=1, lanes=4, vsl=None)][next(c) % 3])
+    add("junction-ramp-lanes", [(0, 2), (1, 2), (2, 3), (3, 4), (3, 5)],
+        {0: "main", 1: "ideal", 2: "ramp_in"}, {4: "free", 5: "cong"}, delta=True, phi=True,
+        linkmk=lambda r, c=itertools.count(): [dict(N=2, lanes=3, vsl=[1]), dict(N=1, lanes=1, vsl=None),
+                                               dict(N=3, lanes=4, vsl=None), dict(N=1, lanes=2, vsl=None),
+                                               dict(N=2, lanes=1, vsl=None)][next(c) % 5])
     add("two-cycle", [(0, 1), (1, 2), (2, 1), (2, 3)], {0: "main"}, {3: "free"})
     return out
 
